@@ -7,7 +7,8 @@ from . import symx
 class Obligation:
     def __init__(self, name, harness, env=None, bounds=None, stubs=(), assumes=(), leverage="inputs",
                  max_paths=20000, path_wall_s=20.0, total_wall_s=None, query_timeout_ms=20000,
-                 witness_every=1, replay=None, expect_labels=None, conc_env=None, kind="symx"):
+                 witness_every=1, replay=None, expect_labels=None, conc_env=None, kind="symx", fast_fp=False):
+        self.fast_fp = fast_fp
         self.name = name
         self.harness = harness          # harness(ex) -> observation
         self.env = env                  # context-manager factory for symbolic runs (environment models on)
@@ -68,7 +69,7 @@ def concrete_run(ob, values):
 def run_obligation(ob, tier, seed):
     """Executed in a worker process. Returns a JSON-able dict."""
     ex = symx.Explorer(ob.name, query_timeout_ms=ob.query_timeout_ms, max_paths=ob.max_paths,
-                       path_wall_s=ob.path_wall_s, total_wall_s=ob.total_wall_s)
+                       path_wall_s=ob.path_wall_s, total_wall_s=ob.total_wall_s, fast_fp=ob.fast_fp)
     rng = random.Random((seed << 16) ^ zlib.crc32(ob.name.encode()))
     out = {"name": ob.name, "violations": [], "harness_errors": [], "samples": [], "witnesses": 0,
            "witness_skipped": 0}
@@ -127,7 +128,7 @@ def run_obligation(ob, tier, seed):
     except symx.HarnessError as e:
         out["harness_errors"].append("%s\n%s" % (e, traceback.format_exc(limit=8)))
         res = ex.res
-    out.update(paths=res.paths, aborted=res.aborted_paths, decisions=res.decisions, queries=res.queries,
+    out.update(paths_with_checks=res.paths_with_checks, replayed=len(out["violations"]), paths=res.paths, aborted=res.aborted_paths, decisions=res.decisions, queries=res.queries,
                solver_s=round(res.solver_s, 3), checks=res.checks, wall_s=round(res.wall_s, 3),
                exhausted=res.exhausted, inconclusive=sorted(set(res.inconclusive))[:10],
                reached=sorted(res.reached))
